@@ -15,7 +15,7 @@ from pyvc.sym import cur, _t, ite
 
 GM = "pybrops/popgen/gmat/"
 SHAPES_U = [(1, 1), (2, 1), (1, 2), (3, 2), (2, 3)]          # (ntaxa, nvrnt), unphased diploid
-SHAPES_P = [(1, 1), (2, 1), (2, 2), (3, 1)]                  # phased: (2, ntaxa, nvrnt)
+SHAPES_P = [(1, 1), (2, 1), (2, 2), (3, 1), (2, 1, 1), (1, 2, 3)]      # phased: (ntaxa, nvrnt[, copies]) -- two copies unless given (haploid, triploid)
 
 
 def _mk_unphased(n, p):
@@ -24,10 +24,10 @@ def _mk_unphased(n, p):
     return DenseGenotypeMatrix(mat=mat, ploidy=2), mat, [[mat[i, j] for j in range(p)] for i in range(n)]
 
 
-def _mk_phased(n, p):
+def _mk_phased(n, p, m=2):
     from pybrops.popgen.gmat.DensePhasedGenotypeMatrix import DensePhasedGenotypeMatrix
-    mat = barr.fresh("h", (2, n, p), "int8", 0, 1)
-    return DensePhasedGenotypeMatrix(mat=mat), mat, [[mat[0, i, j] + mat[1, i, j] for j in range(p)] for i in range(n)]
+    mat = barr.fresh("h", (m, n, p), "int8", 0, 1)
+    return DensePhasedGenotypeMatrix(mat=mat), mat, [[sum((mat[c, i, j] for c in range(m)), 0) for j in range(p)] for i in range(n)]
 
 
 def _stat_obligations(e, tag, gm, dos, n, p, ploidy=2):
@@ -86,18 +86,19 @@ def u_b_unphased(ctx):
 def u_b_phased(ctx):
     def body(e, shape, tag):
         from pybrops.popgen.gmat.DenseGenotypeMatrix import DenseGenotypeMatrix
-        n, p = shape
-        gm, mat, dos = _mk_phased(n, p)
+        n, p = shape[:2]
+        m = shape[2] if len(shape) > 2 else 2            # number of chromosome copies (ploidy): 2 unless the shape says otherwise
+        gm, mat, dos = _mk_phased(n, p, m)
         fr = modeb.Frame(mat=mat)
-        _stat_obligations(e, tag, gm, dos, n, p)
+        _stat_obligations(e, tag, gm, dos, n, p, ploidy=m)
         e.prove(tag + ":frame:genotypes-not-modified-by-the-statistics", fr.unchanged() and gm.mat is mat)
-        proj = DenseGenotypeMatrix(mat=mat.sum(0).astype("int8"), ploidy=2)
+        proj = DenseGenotypeMatrix(mat=mat.sum(0).astype("int8"), ploidy=m)
         for meth in ("tacount", "tafreq", "acount", "afreq", "afixed", "apoly", "maf", "gtcount", "gtfreq"):
             e.prove(tag + ":phased==unphased-projection:" + meth, modeb.eq(getattr(gm, meth)(), getattr(proj, meth)()))
         e.prove(tag + ":phased==unphased-projection:meh", modeb.close_scalar(gm.meh(), proj.meh()))
         if n * p <= 2:
-            mat[...] = barr.fresh("h2", (2, n, p), "int8", 0, 1)
-            _stat_obligations(e, tag + ":after-in-place-write", gm, [[mat[0, i, j] + mat[1, i, j] for j in range(p)] for i in range(n)], n, p)
+            mat[...] = barr.fresh("h2", (m, n, p), "int8", 0, 1)
+            _stat_obligations(e, tag + ":after-in-place-write", gm, [[sum((mat[c, i, j] for c in range(m)), 0) for j in range(p)] for i in range(n)], n, p, ploidy=m)
         return "ok"
     modeb.run_shapes(ctx, "phased", SHAPES_P if ctx.tier == "quick" else SHAPES_P + [(3, 2)], body)
 
